@@ -2,6 +2,8 @@ import FractopoModel.Basic.Wire
 import FractopoModel.Model.Topology
 import FractopoModel.Spec.Classes
 import FractopoModel.Spec.SandersonNixon
+import FractopoModel.Spec.Azimuth
+import FractopoModel.Model.Subsampling
 /-!
 # Model driver: runs the hand-written models and specs (never the regenerated
 definitions, so that it builds whatever the state of /repo) behind a line protocol.
@@ -68,6 +70,77 @@ def bweight (a : Args) : Option String := do
   let c ← (a.get? "c") >>= parseInt?
   some s!"weight={match Spec.boundaryWeight c with | some w => toString w | none => "error"}"
 
+/-- `azimuth d=<deg>`: spec azimuth -/
+def azimuth (a : Args) : Option String := do
+  let d ← (a.get? "d") >>= parseRat?
+  some s!"az={showRat (Spec.azimuthMod d)}"
+
+def parseRanges? (s : String) : Option (List (Rat × Rat)) :=
+  if s.isEmpty then some [] else (s.splitOn ";").mapM fun t =>
+    match t.splitOn "," with
+    | [a, b] => do some (← parseRat? a, ← parseRat? b)
+    | _ => none
+
+/-- `detset v= ranges=lo,hi;lo,hi names=a;b loop=1` -/
+def detset (a : Args) : Option String := do
+  let v ← (a.get? "v") >>= parseRat?
+  let ranges ← (a.get? "ranges") >>= parseRanges?
+  let names := ((a.get? "names").getD "").splitOn ";"
+  let loop ← (a.get? "loop") >>= parseBool?
+  some (match Spec.setOf v loop names ranges with
+    | some n => s!"set=ok:{n}"
+    | none => "set=overlap")
+
+/-- `bins w= az=<list>`: bin count, width, and the bin index of every azimuth -/
+def bins (a : Args) : Option String := do
+  let w ← (a.get? "w") >>= parseRat?
+  if w ≤ 0 then none
+  let az ← (a.get? "az") >>= parseRats?
+  let idx := az.map fun x => match Spec.binIndex w x with | some i => toString i | none => "out"
+  some s!"n={Spec.binCount w} bw={showRat (Spec.binWidth w)} idx={",".intercalate idx}"
+
+/-- `group keys=a;b;a;b`: groups with the positions of their members -/
+def group (a : Args) : Option String := do
+  let ks := ((a.get? "keys").getD "").splitOn ";"
+  let xs := ks.zip (List.range ks.length)
+  let g := Subs.group xs
+  some s!"groups={"|".intercalate (g.map fun (k, is) => s!"{k}:{showNats is}")}"
+
+/-- documented aggregation: additive parameters are summed, everything else is an
+area-weighted mean (hand-written table, from the statement of C20) -/
+def specAggTable : List (String × String) :=
+  ["Area", "Number of Branches", "Number of Branches (Real)", "Number of Traces", "Number of Traces (Real)", "Circle Count"].map (·, "SUM")
+
+def parseCell? (s : String) : Option Subs.Cell :=
+  if s.startsWith "n:" then (parseRat? (s.drop 2).toString).map .num
+  else if s.startsWith "s:" then some (.str (s.drop 2).toString) else none
+
+/-- `aggregate cols=a;b rows=<cell,cell;cell,cell>` (cells `n:<rat>` | `s:<text>`) -/
+def aggregate (a : Args) : Option String := do
+  let cols := (((a.get? "cols").getD "").splitOn ";").map dec
+  let rows ← (((a.get? "rows").getD "").splitOn ";").mapM fun r => (r.splitOn ",").mapM parseCell?
+  if rows.any (·.length != cols.length) then none
+  let rowFns : List (String → Subs.Cell) := rows.map fun r => fun c =>
+    match (cols.zip r).find? (·.1 == c) with | some p => p.2 | none => .str "missing"
+  let out := Subs.aggregate specAggTable "MEAN" "Area" cols rowFns
+  let sh : Subs.Agg → String
+    | .sum q => s!"sum:{showRat q}"
+    | .mean q => s!"mean:{showRat q}"
+    | .fallback => "fallback"
+    | .undefinedMean => "undef"
+  some s!"agg={"|".intercalate (out.map fun (c, v) => s!"{enc c}={sh v}")}"
+
+/-- `circle R= r= rmin= cx= cy= x= y=`: radius in range and sample circle inside target (exact) -/
+def circle (a : Args) : Option String := do
+  let R ← (a.get? "R") >>= parseRat?
+  let r ← (a.get? "r") >>= parseRat?
+  let rmin ← (a.get? "rmin") >>= parseRat?
+  let c0 : Pt := ⟨← (a.get? "cx") >>= parseRat?, ← (a.get? "cy") >>= parseRat?⟩
+  let c : Pt := ⟨← (a.get? "x") >>= parseRat?, ← (a.get? "y") >>= parseRat?⟩
+  let inRange := decide (rmin ≤ r) && decide (r ≤ R)
+  let inside := decide (r ≤ R) && decide (Pt.dist2 c c0 ≤ (R - r) * (R - r))
+  some s!"inrange={showBool inRange} inside={showBool inside}"
+
 end Cmd
 
 def dispatch (line : String) : String :=
@@ -83,6 +156,12 @@ def dispatch (line : String) : String :=
       | "branchid" => Cmd.branchid a
       | "degclass" => Cmd.degclass a
       | "params" => Cmd.params a
+      | "azimuth" => Cmd.azimuth a
+      | "detset" => Cmd.detset a
+      | "bins" => Cmd.bins a
+      | "group" => Cmd.group a
+      | "aggregate" => Cmd.aggregate a
+      | "circle" => Cmd.circle a
       | "bweight" => Cmd.bweight a
       | _ => some s!"error=unknown-command:{cmd}"
     r.getD "error=bad-arguments"
